@@ -195,13 +195,15 @@ def run(ctx) -> RuleResult:
     )
     n_sites = 0
     n_funcs = 0
-    for module, qual, func in ctx.repo.all_functions():
+    for module, qual, func in ctx.repo.analysed_functions():
         if module.is_pyx:
             continue
         fq = f"{module.name}.{qual}"
         if fq in EXEMPT_FUNCS:
             result.exception(fq, EXEMPT_FUNCS[fq])
             continue
+        if func.name in module.absorbed:
+            continue  # private helper inlined into every caller: judged with the caller's provenance
         text = ast.unparse(func)
         if not any(a in text for a in (".coefficients", ".values", ".exponents", ".keys", "get_division_candidate")):
             continue
@@ -220,33 +222,36 @@ def run(ctx) -> RuleResult:
                         continue
                     cache[ckey] = True
                     expr = step.expand(raw)
-                    for sink, a_expr, b_expr, need, what in _sinks(ctx, module, expr, step):
-                        a, b = _Obj(ctx, module, a_expr), _Obj(ctx, module, b_expr)
-                        if a.is_output or b.is_output:
-                            continue
-                        ok = _compatible(a, b, need, step)
-                        if not ok and is_helper and a.params and b.params and set(a.params + b.params) <= set(params) \
-                                and not a.cls and not b.cls:
-                            continue  # discharged at the call sites (precondition)
-                        if not ok and _guarded(step, b_expr, a_expr, sink):
-                            ok = True
-                        n_sites += 1
-                        ident = f"{fq}: {what}"
-                        if ok:
-                            result.ob(ident, True, module.loc(step.orig), "")
-                            continue
-                        key = (what, U(getattr(sink, "_orig", sink))[:80])
-                        if key in reported:
-                            continue
-                        reported.add(key)
-                        trace = trace or describe_path(path)
-                        result.ob(ident, False, module.loc(step.orig), f"{a.text[:80]} vs {b.text[:80]}")
-                        result.add(Finding(
-                            "R-ALIGN", module, qual, step.node,
-                            f"{what}: '{a.text[:90]}' and '{b.text[:90]}' do not come out of one "
-                            f"alignment call (need {need}-alignment); keys/columns of one are applied to the other",
-                            derivation=trace,
-                            construct=f"{what} :: {U(step.orig)[:160]}"))
+                    for sink, a_expr0, b_expr0, need, what in _sinks(ctx, module, expr, step):
+                      for a_expr in _alternatives(a_expr0, step):
+                        for b_expr in _alternatives(b_expr0, step):
+                          a, b = _Obj(ctx, module, a_expr), _Obj(ctx, module, b_expr)
+                          for _once in (0,):
+                              if a.is_output or b.is_output:
+                                  continue
+                              ok = _compatible(a, b, need, step)
+                              if not ok and is_helper and a.params and b.params and set(a.params + b.params) <= set(params) \
+                                      and not a.cls and not b.cls:
+                                  continue  # discharged at the call sites (precondition)
+                              if not ok and _guarded(step, b_expr, a_expr, sink):
+                                  ok = True
+                              n_sites += 1
+                              ident = f"{fq}: {what}"
+                              if ok:
+                                  result.ob(ident, True, module.loc(step.orig), "")
+                                  continue
+                              key = (what, U(getattr(sink, "_orig", sink))[:80])
+                              if key in reported:
+                                  continue
+                              reported.add(key)
+                              trace = trace or describe_path(path)
+                              result.ob(ident, False, module.loc(step.orig), f"{a.text[:80]} vs {b.text[:80]}")
+                              result.add(Finding(
+                                  "R-ALIGN", module, qual, step.node,
+                                  f"{what}: '{a.text[:90]}' and '{b.text[:90]}' do not come out of one "
+                                  f"alignment call (need {need}-alignment); keys/columns of one are applied to the other",
+                                  derivation=trace,
+                                  construct=f"{what} :: {U(step.orig)[:160]}"))
                 # preconditions of helpers at call sites
                 for raw in step_exprs(step):
                     ckey = ("pre", id(raw), id(step.vars))
@@ -276,6 +281,23 @@ def run(ctx) -> RuleResult:
     result.info["sites"] = n_sites
     result.floor = 40
     return result
+
+
+def _alternatives(expr, step):
+    """An element of a literal dict/tuple/list denotes one of its members (those not known to be None)."""
+    base = expr
+    if is_S(base) and base.func.id[1:] in ("value", "elem") and base.args and isinstance(base.args[0], (ast.Dict, ast.Tuple, ast.List)):
+        lit = base.args[0]
+        members = list(lit.values) if isinstance(lit, ast.Dict) else [e for e in lit.elts if not isinstance(e, ast.Starred)]
+        if members and not (isinstance(lit, (ast.Tuple, ast.List)) and len(members) == 1):
+            out = []
+            for member in members:
+                known_none = step.fact(f"{U(member)} is None") is True or (
+                    isinstance(member, ast.Constant) and member.value is None)
+                if not known_none:
+                    out.append(member)
+            return out
+    return [expr]
 
 
 def _guarded(step, b_expr, a_expr, sink) -> bool:
